@@ -510,7 +510,7 @@ class Scheduler(object):
       stuck = []
       for t in self.threads:
         if t.os_thread is not None:
-          t.os_thread.join(10.0)
+          t.os_thread.join(120.0)
           if t.os_thread.is_alive():
             stuck.append(t.role)
       CURRENT = None
